@@ -332,3 +332,15 @@ Theorem C04_iter_partial : forall i, d_ind_ok i ->
   end.
 Proof. exact d_iter_spec. Qed.
 Print Assumptions C04_iter_partial.
+(* non-vacuity of C04_dataset_atomic on arrays: shared parent, a fault in the parent, then in the child, then none *)
+Theorem C04_dataset_example :
+  z_wf _ _ z_ex2_world /\
+  z_ex2_show (z_run d_getitem z_code z_ex2_world (z_init z_ex2_world) z_ex2_hist) =
+    [[(None, [(0, 0)]%nat)];
+     [(None, [(0, 0); (1, 0)]%nat)];
+     [(Some [-3; -5; -7], [(2, 0)]%nat); (Some [-7; -3], [(1, 0)]%nat)];
+     [(Some [-7; -3], []); (Some [-3; -5; -7], []); (Some [3; 5; 7], [])]] /\
+  z_run d_getitem z_code z_ex2_world (z_init z_ex2_world) z_ex2_hist
+    = z_spec_run d_getitem z_ex2_world (fun _ => None) z_ex2_hist.
+Proof. exact z_example_nested. Qed.
+Print Assumptions C04_dataset_example.
